@@ -14,5 +14,9 @@ void VH_FN(std::map<std::string, std::vector<fmm::Segment>>& out) {
     using E = fmm::Env<double, VH_DIM, (VH_PER != 0)>;
     out["c03"].push_back(sch::c03Segment<E>(VH_TSAN ? 6 : 12, VH_TSAN ? 60 : 400, VH_TSAN));
     out["c09"].push_back(sch::c09OmpSegment<E>(VH_TSAN ? 4 : 8, VH_TSAN ? 40 : 300, VH_TSAN));
+#if !VH_TSAN
+    out["c08"].push_back(sch::c08ExecSegment<E>(VH_PER ? 6 : 12, VH_PER ? 100 : 300));
+    out["c12"].push_back(sch::c12ExecSegment<E>(VH_PER ? 8 : 16, VH_PER ? 120 : 400));
+#endif
     out["c18"].push_back(sch::c18OmpSegment<E>(VH_TSAN ? 4 : 8, VH_TSAN ? 40 : 300, VH_TSAN));
 }
